@@ -82,8 +82,36 @@ Proof. exact ud_from_bytes. Qed.
 Theorem C15_ud_flags_monotone : forall cfg fl st s, N.land fl (snd (fst (ud_urldecode_from cfg fl st s))) = fl.
 Proof. exact ud_flags_monotone. Qed.
 
-(* exactness of output, flags and expected status, proved on two fragments of the input language
-   (the full statement over all inputs -- a token-level characterisation of every flag -- is not proved) *)
+(* token-level specification, all inputs, every configuration whose invalid-handling is one of the three enum values:
+   the decoder = "tokenise greedily (PUrlenc.ud_classify / ud_tok_span), interpret the tokens in order, stop at a
+   terminating NUL" -- output bytes, flags and expected status *)
+Theorem C15_ud_token_spec : forall cfg fl st s,
+  ud_handling_of cfg <> UdNoCase ->
+  ud_urldecode_from cfg fl st s = ud_eval cfg fl st [] (ud_tokens cfg s).
+Proof. exact ud_token_spec. Qed.
+Print Assumptions C15_ud_token_spec.
+
+(* flag exactness, both directions: an indicator is raised exactly when a token of its kind is among the
+   interpreted tokens (those up to and including the first one that stops the decoding) *)
+Theorem C15_ud_flag_invalid_iff : forall cfg s, ud_handling_of cfg <> UdNoCase ->
+  ud_has (ud_out_flags cfg s) c_HTP_URLEN_INVALID_ENCODING = existsb ud_tok_is_bad (ud_live_tokens cfg s).
+Proof. exact ud_flag_invalid_iff. Qed.
+Theorem C15_ud_flag_overlong_iff : forall cfg s, ud_handling_of cfg <> UdNoCase ->
+  ud_has (ud_out_flags cfg s) c_HTP_URLEN_OVERLONG_U = existsb (ud_tok_overlong cfg) (ud_live_tokens cfg s).
+Proof. exact ud_flag_overlong_iff. Qed.
+Theorem C15_ud_flag_halffull_iff : forall cfg s, ud_handling_of cfg <> UdNoCase ->
+  ud_has (ud_out_flags cfg s) c_HTP_URLEN_HALF_FULL_RANGE = existsb (ud_tok_halffull cfg) (ud_live_tokens cfg s).
+Proof. exact ud_flag_halffull_iff. Qed.
+Theorem C15_ud_flag_encoded_nul_iff : forall cfg s, ud_handling_of cfg <> UdNoCase ->
+  ud_has (ud_out_flags cfg s) c_HTP_URLEN_ENCODED_NUL = existsb (ud_tok_encoded_nul cfg) (ud_live_tokens cfg s).
+Proof. exact ud_flag_encoded_nul_iff. Qed.
+Theorem C15_ud_flag_raw_nul_iff : forall cfg s, ud_handling_of cfg <> UdNoCase ->
+  ud_has (ud_out_flags cfg s) c_HTP_URLEN_RAW_NUL
+  = existsb (fun t => match t with UtRawNul => true | _ => false end) (ud_live_tokens cfg s).
+Proof. exact ud_flag_raw_nul_iff. Qed.
+Print Assumptions C15_ud_flag_encoded_nul_iff.
+
+(* closed forms on two fragments of the input language (no '%' at all; well-formed %HH only) *)
 Theorem C15_ud_nopct_partial : forall cfg fl st s,
   ud_nopct s = true ->
   ud_urldecode_from cfg fl st s =
@@ -128,6 +156,18 @@ Example C15_example_wf : ud_wfb [97; 37; 52; 49; 43; 37; 50; 54] = true
 Proof. vm_compute. split; reflexivity. Qed.
 Example C15_example_nopct : ud_nopct [97; 0; 43; 98] = true
   /\ ud_urldecode_ex ex_cfg [97; 0; 43; 98] = ([97; 0; 32; 98], c_HTP_URLEN_RAW_NUL, 0%Z).
+Proof. vm_compute. split; reflexivity. Qed.
+
+(* the premise of the token-level theorems holds for every value of the enum; tokens of "a%4%u00e9%00b" with %u decoding:
+   the malformed "%4%" keeps only its '%', %u00e9 is an overlong form, %00 is an encoded NUL *)
+Example C15_example_handling : ud_handling_of ex_cfg = UdPreserve /\ ud_handling_of ex_cfg <> UdNoCase.
+Proof. split; [reflexivity|discriminate]. Qed.
+Example C15_example_tokens :
+  ud_tokens ex_cfg [97; 37; 52; 37; 117; 48; 48; 101; 57; 37; 48; 48; 98]
+  = [UtLit 97; UtBadHex 52 37; UtLit 52; UtPctU 48 48 101 57; UtPct 48 48; UtLit 98]
+  /\ ud_urldecode_ex ex_cfg [97; 37; 52; 37; 117; 48; 48; 101; 57; 37; 48; 48; 98]
+     = ([97; 37; 52; 233; 0; 98],
+        N.lor c_HTP_URLEN_INVALID_ENCODING (N.lor c_HTP_URLEN_OVERLONG_U c_HTP_URLEN_ENCODED_NUL), 400%Z).
 Proof. vm_compute. split; reflexivity. Qed.
 
 (* a fresh parser is fresh; the regenerated defaults are the ones the reference names *)
